@@ -43,15 +43,14 @@ Definition ex_done : plan :=
        [mk_seq 22 (st Running 100 0) [mk_act 23 None (st Completed 100 150)]]].
 
 (* Running, last activity at 8999 = one tick older than maxAge: a Running block, sequence, action,
-   continuous-check group and check action; a pre-check group already Completed; the only recent record
-   is the END OF AN ATTEMPT (9990), which lastUpdate does not look at *)
+   continuous-check group and check action; a pre-check group already Completed; an old failed attempt *)
 Definition ex_aged : plan :=
   mk_plan 30 (st Running 5000 0) FRUnknown
     (mk_chk 31 (st Completed 5000 5100) [mk_act 32 None (st Completed 5000 5100)]) None
     [mk_blk 33 (st Running 5200 0) None
        (mk_chk 34 (st Running 5300 0) [mk_act 35 None (st Running 8999 0)])
        [mk_seq 36 (st Running 5400 0)
-          [mk_act 37 (Some [{| at_resp := bl 0; at_err := Some (PErr 1 1 false None); at_start := 9980; at_end := 9990 |}])
+          [mk_act 37 (Some [{| at_resp := bl 0; at_err := Some (PErr 1 1 false None); at_start := 5600; at_end := 5700 |}])
                   (st Running 5500 0);
            mk_act 38 None (st NotStarted 0 0)]]].
 
@@ -65,7 +64,16 @@ Definition ex_live : plan :=
 Definition ex_zero : plan :=
   mk_plan 50 (st Running 0 0) FRUnknown None None [mk_blk 51 (st Running 0 0) None None []].
 
-Definition ex_store : list plan := [ex_fresh; ex_done; ex_aged; ex_live; ex_zero].
+(* Running; every State is older than maxAge, the only recent record is the END OF AN ATTEMPT of an
+   action that is being retried (9990): recorded activity, so the plan is live (R4, fixed by d8f84b2) *)
+Definition ex_retry : plan :=
+  mk_plan 60 (st Running 5000 0) FRUnknown None None
+    [mk_blk 61 (st Running 5100 0) None None
+       [mk_seq 62 (st Running 5200 0)
+          [mk_act 63 (Some [{| at_resp := bl 0; at_err := Some (PErr 1 1 false None); at_start := 9980; at_end := 9990 |}])
+                  (st Running 5300 0)]]].
+
+Definition ex_store : list plan := [ex_fresh; ex_done; ex_aged; ex_live; ex_zero; ex_retry].
 
 Fixpoint nodupb (l : list (table * N)) : bool :=
   match l with
@@ -93,12 +101,12 @@ Proof. apply nodupb_sound. vm_compute. reflexivity. Qed.
 
 (* the three clauses on one store: the aged plans (30, 50) are closed, the live one (40) is the only one
    resumed, the never-started and the terminal plan are identical afterwards *)
-Example ex_select_resumed : snd (select ex_now ex_stamp ex_maxage true ex_store) = [40%N].
+Example ex_select_resumed : snd (select ex_now ex_stamp ex_maxage true ex_store) = [40%N; 60%N].
 Proof. vm_compute. reflexivity. Qed.
 
 Example ex_select_store :
   fst (select ex_now ex_stamp ex_maxage true ex_store) =
-  [ex_fresh; ex_done; close_plan ex_stamp ex_aged; ex_live; close_plan ex_stamp ex_zero].
+  [ex_fresh; ex_done; close_plan ex_stamp ex_aged; ex_live; close_plan ex_stamp ex_zero; ex_retry].
 Proof. vm_compute. reflexivity. Qed.
 
 Example ex_aged_rows_after :
@@ -133,6 +141,10 @@ Proof.
   - apply stale_iff. vm_compute. reflexivity.
   - intros H. apply stale_iff in H. vm_compute in H. discriminate H.
 Qed.
+
+Example ex_attempts_are_activity :
+  last_update ex_retry = 9990%Z /\ stale ex_now ex_maxage ex_retry = false /\ latest ex_retry = 9990%Z.
+Proof. vm_compute. repeat split. Qed.
 
 (* recovery disabled *)
 Example ex_no_recovery : select ex_now ex_stamp ex_maxage false ex_store = (ex_store, []).
